@@ -107,4 +107,46 @@ Section SemEquiv.
                                dpm
                     else [])
                  dpm).
+
+  (* --- graph against graph (demes matched by position in [pairs]: indices into the two deme lists) --- *)
+  Definition check_graphs_at (close : num -> num -> bool) (g h : graph) (pairs : list (nat * nat)) (t : num)
+    : list code :=
+    let dg i := nth_error (g_demes g) i in
+    let dh i := nth_error (g_demes h) i in
+    flat_map (fun ij : nat * nat =>
+                match dg (fst ij), dh (snd ij) with
+                | Some a, Some b =>
+                    (* sizes over the lifetime of the deme in g (the original) *)
+                    (if exists_at a t then
+                       match size_at a t, size_at b t with
+                       | Ok x, Ok y => if close x y then [] else [("size", fst ij, snd ij)]
+                       | _, _ => [("size-undefined", fst ij, snd ij)]
+                       end
+                     else [])
+                    ++ flat_map (fun kl : nat * nat =>
+                                   match dg (fst kl), dh (snd kl) with
+                                   | Some c, Some d =>
+                                       if Nat.eqb (fst ij) (fst kl) then []
+                                       else if close (rate_at (g_migs g) (d_name c) (d_name a) t)
+                                                     (rate_at (g_migs h) (d_name d) (d_name b) t)
+                                            then [] else [("rate", fst ij, fst kl)]
+                                   | _, _ => []
+                                   end) pairs
+                | _, _ => [("missing-deme", fst ij, snd ij)]
+                end) pairs.
+
+  Definition check_gmoves_at (close same : num -> num -> bool) (g h : graph) (pairs : list (nat * nat)) (b : num)
+    : list code :=
+    let Pg := gmoves same g b in
+    let Ph := gmoves same h b in
+    flat_map (fun ij : nat * nat =>
+                match nth_error (g_demes g) (fst ij) with
+                | Some d1 =>
+                    if nlt (dend0 d1) b && (nle b (d_start d1) || same b (d_start d1)) && negb (same (dend0 d1) b) then
+                      flat_map (fun kl : nat * nat =>
+                                  if close (nth (fst kl) (nth (fst ij) Pg []) nf0) (nth (snd kl) (nth (snd ij) Ph []) nf0)
+                                  then [] else [("move", fst ij, fst kl)]) pairs
+                    else []
+                | None => []
+                end) pairs.
 End SemEquiv.
